@@ -216,6 +216,8 @@ pub async fn listener_scenario(pki: Arc<Pki>, dict: Arc<Dictionary>, spec: Vec<S
     let fault = kv.get("fault").cloned().unwrap_or_else(|| "none".into());
     let when = kv.get("when").cloned().unwrap_or_else(|| "during".into());
     let nfaulty: usize = kv.get("nfaulty").and_then(|x| x.parse().ok()).unwrap_or(1);
+    // `hold=<s>`: every well-behaved client stays idle for that many (real) seconds in the middle of its exchanges
+    let hold: u64 = kv.get("hold").and_then(|x| x.parse().ok()).unwrap_or(0);
     let id = if tls { Some(identity(&pki.good)) } else { None };
     {
         let seen: Arc<Mutex<Vec<String>>> = Default::default();
@@ -332,6 +334,9 @@ pub async fn listener_scenario(pki: Arc<Pki>, dict: Arc<Dictionary>, spec: Vec<S
                     if i == reqs / 2 {
                         // let the fault happen in the middle of the good traffic
                         let _ = tokio::time::timeout(Duration::from_secs(8), go.wait_for(|x| *x)).await;
+                        if hold > 0 {
+                            tokio::time::sleep(Duration::from_secs(hold)).await;
+                        }
                     }
                     let hbh = ((c as u32 + 1) << 16) | i as u32;
                     let marker = format!("good;{};{}", c, i);
